@@ -266,10 +266,10 @@ PROPERTIES = {
                 init=[MOD + "/http", "verifmod/gen/binding", "verifmod/gen/roundtrip"],
                 overlay={"gen/binding/zz_verif_c02.go": "harness/c02/c02_binding.go", "gen/binding/zz_verif_c17.go": "harness/c17/c17_server.go",
                          "gen/roundtrip/zz_verif_c01a.go": "harness/c01/c01_common.go", "gen/roundtrip/zz_verif_c17.go": "harness/c17/c17_client.go"},
-                harnesses=[dict(func="VerifC17ServerHistory", reach=["C17/server/decided"], quick=dict(budget=400, parts=8, flags=["-maxpaths", "200000"]), thorough=dict(budget=1500, parts=16, flags=["-maxpaths", "800000"])),
+                harnesses=[dict(func="VerifC17ServerHistory", reach=["C17/server/decided", "C17/server/dispatched"], quick=dict(budget=400, parts=8, flags=["-maxpaths", "200000"]), thorough=dict(budget=1500, parts=16, flags=["-maxpaths", "800000"])),
                            dict(func="VerifC17ClientOptions", pkgpath="verifmod/gen/roundtrip", test_pkg="./gen/roundtrip", test_pkgname="roundtrip",
                                 reach=["C17/client/decided"], quick=dict(budget=200), thorough=dict(budget=600))],
-                bounds_text={"quick": "server: two services x two routes each registered through the emitted Register*Server on one mux; request A then request B, each over 4 routes x header presence (service-level required+optional, method-level) x 2 ids (thorough: also malformed header values); B-after-A compared with B on a freshly registered server. client: call A then call B on one emitted client over 3 RPCs x per-call header options x per-call content type, compared with B on a fresh client"},
+                bounds_text={"quick": "server: two services (2 + 4 routes, two of them binding one request message with different path-variable sets) registered through the emitted Register*Server on one mux; request A then request B, each over 4 routes x header presence (service-level required+optional, method-level) x 2 ids (thorough: also malformed header values); B-after-A compared with B on a freshly registered server. client: call A then call B on one emitted client over 3 RPCs x per-call header options x per-call content type, compared with B on a fresh client"},
                 assumptions=E_ASSUMPTIONS + ["sufficient condition only: sequential history independence and route/option isolation are decided; interleavings of concurrent calls are NOT explored (no schedule exploration in this family) and the race detector is not involved",
                                              "sync.Once is modelled sequentially"]),
     "C18": dict(mode="G", load_pkgs=["./internal/openapiv3"], pkgpath=MOD + "/internal/openapiv3", test_pkg="./internal/openapiv3", test_pkgname="openapiv3",
